@@ -411,6 +411,7 @@ func (a Atom) String() string {
 //	struct     Where(Rec{...}) / structptr Where(&Rec{...})               non-zero fields ANDed, op =
 //	pkint      Where(7) / First(&r, 7)            primary key lookups: one atom id IN (values)
 //	pkstring   Where("7") / First(&r, "7")
+//	pksigned   Where("+7") / First(&r, "-1"): a signed numeric string is a key as well (strconv.Atoi)
 //	pkslice    Where([]int64{2, 3, 5}) / Last(&r, []int64{2, 3, 5})
 //	pkvariadic Where(2, 3, 5) / Last(&r, 2, 3, 5)
 type Cond struct {
@@ -447,7 +448,7 @@ func (c Cond) empty() bool {
 
 func (c Cond) eval(r Row) bool {
 	switch c.Kind {
-	case "raw", "pkint", "pkstring", "pkslice", "pkvariadic":
+	case "raw", "pkint", "pkstring", "pksigned", "pkslice", "pkvariadic":
 		return c.Atoms[0].eval(r)
 	case "rawor":
 		return c.Atoms[0].eval(r) || c.Atoms[1].eval(r)
@@ -478,6 +479,11 @@ func (c Cond) args() (interface{}, []interface{}) {
 	case "pkint":
 		return c.Atoms[0].I[0], nil
 	case "pkstring":
+		return strconv.FormatInt(c.Atoms[0].I[0], 10), nil
+	case "pksigned":
+		if v := c.Atoms[0].I[0]; v >= 0 {
+			return "+" + strconv.FormatInt(v, 10), nil
+		}
 		return strconv.FormatInt(c.Atoms[0].I[0], 10), nil
 	case "pkslice":
 		return append([]int64(nil), c.Atoms[0].I...), nil
@@ -541,7 +547,7 @@ func (c Cond) String() string {
 		parts[i] = a.String()
 	}
 	switch c.Kind {
-	case "pkint", "pkstring", "pkslice", "pkvariadic":
+	case "pkint", "pkstring", "pksigned", "pkslice", "pkvariadic":
 		return fmt.Sprintf("Where(%s:%v)", c.Kind, c.Atoms[0].I)
 	case "raw":
 		return "Where(`" + parts[0] + "`)"
@@ -1903,12 +1909,6 @@ func (k *runner) batchPaths() {
 	if !keyOrdered(k.c.Order) || k.c.hasScope("page") {
 		return
 	}
-	if k.c.Or != nil && harness.OpenClass("C15", "batches-after-or") {
-		// known finding: FindInBatches appends its `key > last` cursor behind the OR branch
-		// (a OR b AND key > last): rows of the first branch come back in every batch
-		evid.Excluded("batches-after-or")
-		return
-	}
 	ss := k.structSrc()
 	want := k.ref.keyWin
 	pk := clause.OrderByColumn{Column: clause.Column{Table: clause.CurrentTable, Name: clause.PrimaryKey}}
@@ -2931,9 +2931,16 @@ func distinctCols(rt *rapid.T, n int) []string {
 }
 
 func genCond(rt *rapid.T, maxID int64) Cond {
-	kind := rapid.SampledFrom([]string{"raw", "raw", "rawor", "map", "map", "struct", "structptr", "pkint", "pkstring", "pkslice", "pkslice", "pkvariadic"}).Draw(rt, "cond-kind")
+	kind := rapid.SampledFrom([]string{"raw", "raw", "rawor", "map", "map", "struct", "structptr", "pkint", "pkstring", "pksigned", "pkslice", "pkslice", "pkvariadic"}).Draw(rt, "cond-kind")
 	c := Cond{Kind: kind}
 	switch kind {
+	case "pksigned":
+		v := int64(rapid.IntRange(-3, int(maxID)+1).Draw(rt, "signed-pk"))
+		if v == 0 {
+			v = -1
+		}
+		c.Atoms = []Atom{{Col: "id", Op: "in", I: []int64{v}}}
+		return c
 	case "pkint", "pkstring", "pkslice", "pkvariadic":
 		n := 1
 		if kind == "pkslice" {
